@@ -221,9 +221,22 @@ def doc_classes(root):
 # --------------------------------------------------------------------------
 # generator
 # --------------------------------------------------------------------------
+def names_in(n):
+    """anchor names defined or referenced (by an alias) inside the node, the node's own anchor excluded"""
+    t = n["t"]
+    out = set()
+    if t == "al":
+        return {n["name"]}
+    for c in (n["items"] if t == "sq" else [v for _, v in n["es"]] if t == "mp" else []):
+        if c.get("a"):
+            out.add(c["a"])
+        out |= names_in(c)
+    return out
+
+
 class Gen:
-    def __init__(self, rng, adversarial):
-        self.rng, self.adv = rng, adversarial
+    def __init__(self, rng, adversarial, redef=False):
+        self.rng, self.adv, self.redef = rng, adversarial, redef
         self.anchors = []     # (name, node)
         self.n = 0
 
@@ -258,10 +271,21 @@ class Gen:
         return self.map(depth + 1)
 
     def reg(self, node, p):
-        """give the finished node an anchor with probability p; aliases can refer to it from now on"""
+        """give the finished node an anchor with probability p; aliases can refer to it from now on.
+        With self.redef the name may be one that is already defined: anchors need not be unique, an alias
+        refers to the most recent preceding definition, so the name is re-pointed for everything generated later
+        (aliases generated earlier keep their own target object)."""
         if self.rng.random() < p:
-            node["a"] = self.fresh()
-            self.anchors.append((node["a"], node))
+            name = None
+            if self.redef and self.anchors and self.rng.random() < 0.5:
+                used = names_in(node)       # a name defined or referenced inside the node would change meaning
+                cand = [n for n, _ in self.anchors if n not in used]
+                if cand:
+                    name = self.rng.choice(cand)
+            if name is None:
+                name = self.fresh()
+            node["a"] = name
+            self.anchors = [(n, t) for n, t in self.anchors if n != name] + [(name, node)]
         return node
 
     def map(self, depth, force_merge=False):
@@ -323,7 +347,15 @@ def fixed_docs():
     d3 = mp([["a", a3], ["b", b3], ["m", mp([["<<", sq([al("a", a3), al("b", b3)])], ["z", sc("w")]])]])
     s = sq([sc(1, "s1"), sc("va")], "s")
     d4 = mp([["s", s], ["t", al("s", s)], ["u", al("s1", s["items"][0])], ["v", sq([al("s", s), al("s1", s["items"][0])])]])
-    return [d1, d2, d3, d4, mp([]), mp([["k", sc("null")]])]
+    # the same anchor name defined twice: every alias / merge refers to the most recent preceding definition
+    e1 = mp([["x", sc(1)], ["y", sc(2)]], "d")
+    s1 = sc("one", "s")
+    e2 = mp([["x", sc(10)], ["z", sc(3)]], "d")
+    s2 = sc("two", "s")
+    d5 = mp([["base", e1], ["first", mp([["<<", al("d", e1)], ["v", s1], ["w", al("s", s1)]])],
+             ["other", e2], ["second", mp([["<<", al("d", e2)], ["v", s2], ["w", al("s", s2)]])],
+             ["l", sq([al("d", e2), al("s", s2)])]])
+    return [d1, d2, d3, d4, d5, mp([]), mp([["k", sc("null")]])]
 
 
 # --------------------------------------------------------------------------
@@ -478,8 +510,9 @@ def run(chk):
     n_docs = 6000 if thorough else 450
     for i in range(n_docs):
         adv = rng.random() < 0.45
-        g = Gen(rng, adv)
-        docs.append((g.document(), "adversarial" if adv else "simple"))
+        redef = rng.random() < 0.35
+        g = Gen(rng, adv, redef)
+        docs.append((g.document(), ("adversarial" if adv else "simple") + ("+redef" if redef else "")))
     cases = []
     stats = {"docs": 0, "docs_clean": 0, "docs_malformed": 0, "paths": 0, "route1_unmodelled": 0, "known_class_hits": {},
              "with_merge": 0, "with_merge_list": 0, "with_alias_value": 0}
@@ -510,6 +543,8 @@ def run(chk):
         stats["with_merge"] += 1 if "<<:" in text else 0
         stats["with_merge_list"] += 1 if "<<: [" in text else 0
         stats["with_alias_value"] += 1 if re.search(r"[a-z0-9]: \*", text) else 0
+        defs = re.findall(r"&(a\d+|[ds]) ", text)
+        stats["with_anchor_redefined"] = stats.get("with_anchor_redefined", 0) + (1 if len(defs) != len(set(defs)) else 0)
         if any(r is None for r in rs):
             broken.append("harness gave no answer for a document")
             continue
